@@ -29,7 +29,7 @@ PROP = "C17"
 RULE = ("ensembles of 1-6 particles; per particle: start frame 0-1000, 1-40 rows, gap pattern in "
         "{none, single, periodic (lags without any pair), random, long, two-rows}; random-walk "
         "positions on a k/8 grid in 1-3 dimensions; table rows shuffled in 3 of 4 cases; index layout "
-        "range/shuffled/duplicated; mpp dyadic, fps in {1/2,1,2,4,8,24,30}; max_lagtime below, at and "
+        "range/shuffled/duplicated; mpp dyadic (incl. 2^-24, 3*2^-25 and 1024: absolute tolerances show at small magnitudes), fps in {1/2,1,2,4,8,24,30}; max_lagtime below, at and "
         "above the frame span.  Non-trivial = some particle has >= 3 rows and at least one lag with a "
         "pair; distinct = distinct canonical input.")
 ASSUMPTIONS = [
@@ -110,7 +110,7 @@ def gen_case(rng, thorough=False):
             parts[0] = gen_particle(rng, d, parts[0]["pid"])
     span = max(p["rows"][-1][0] - p["rows"][0][0] for p in parts)
     ml = rng.choice([1, 2, 3, max(1, span // 2), max(1, span - 1), max(1, span), span + 5, 100])
-    return dict(d=d, mpp=rng.choice(["1", "1", "1/2", "1/4", "2", "3/8", "5/32"]),
+    return dict(d=d, mpp=rng.choice(["1", "1", "1/2", "1/4", "2", "3/8", "5/32", "1/16777216", "3/33554432", "1024"]),
                 fps=rng.choice(["1", "1", "2", "4", "1/2", "8", "24", "30"]),
                 max_lagtime=ml, particles=parts,
                 shuffle=None if rng.random() < 0.25 else rng.randint(0, 10 ** 6),
